@@ -38,6 +38,8 @@ type fwdRunScenario struct {
 	// SignalAfterMs >= 0: the proxy is configured with SIGUSR1 as shutdown signal and the signal is
 	// sent this long after the cancel, i.e. the drain is cancelled (context.Canceled) instead of timing out
 	SignalAfterMs int `json:"signal_after_ms"`
+	// TwoListeners: the proxy has an extra listener; the idle client sits on it, the in-flight one on the main listener
+	TwoListeners bool `json:"two_listeners"`
 }
 
 type fwdRunResult struct {
@@ -99,6 +101,9 @@ func runRun(sc fwdRunScenario) (res fwdRunResult) {
 	if sc.SignalAfterMs >= 0 {
 		cfg.ShutdownSignals = []os.Signal{syscall.SIGUSR1}
 	}
+	if sc.TwoListeners {
+		cfg.ExtraListeners = []forwarder.NamedListenerConfig{{Name: "extra", ListenerConfig: *forwarder.DefaultListenerConfig("127.0.0.1:0")}}
+	}
 	tr := &http.Transport{MaxIdleConnsPerHost: 4}
 	hp, err := forwarder.NewHTTPProxy(cfg, nil, nil, tr, log.NopLogger, nil)
 	if err != nil {
@@ -115,6 +120,14 @@ func runRun(sc fwdRunScenario) (res fwdRunResult) {
 	type client struct {
 		c  net.Conn
 		br *bufio.Reader
+	}
+	paddr2 := addrs[len(addrs)-1]
+	dialAt := func(a string) (*client, error) {
+		c, err := net.DialTimeout("tcp", a, time.Second)
+		if err != nil {
+			return nil, err
+		}
+		return &client{c: c, br: bufio.NewReader(c)}, nil
 	}
 	dial := func() (*client, error) {
 		c, err := net.DialTimeout("tcp", paddr, time.Second)
@@ -167,7 +180,7 @@ func runRun(sc fwdRunScenario) (res fwdRunResult) {
 
 	var idle, infl *client
 	if sc.Idle {
-		if idle, err = dial(); err != nil {
+		if idle, err = dialAt(paddr2); err != nil {
 			res.Err = err.Error()
 			return
 		}
@@ -206,12 +219,14 @@ func runRun(sc fwdRunScenario) (res fwdRunResult) {
 	time.Sleep(20 * time.Millisecond)
 	// a new connection must not be served
 	res.Refused = true
-	if nc, err := dial(); err == nil {
-		get(nc, "/fast") //nolint:errcheck
-		if full, _, err := read(nc, 300*time.Millisecond); err == nil && full {
-			res.Refused = false
+	for _, a := range addrs {
+		if nc, err := dialAt(a); err == nil {
+			get(nc, "/fast") //nolint:errcheck
+			if full, _, err := read(nc, 300*time.Millisecond); err == nil && full {
+				res.Refused = false
+			}
+			nc.c.Close()
 		}
-		nc.c.Close()
 	}
 	if sc.LateSend && idle != nil {
 		get(idle, "/fast") //nolint:errcheck
@@ -292,6 +307,9 @@ func genRunScenarios(tier string) []fwdRunScenario {
 		)
 	}
 	add(400)
+	out = append(out,
+		fwdRunScenario{Name: "run/400/two-listeners/inflight-answered+idle", TimeoutMs: 400, Inflight: true, OriginAfterMs: 100, Idle: true, TwoListeners: true},
+		fwdRunScenario{Name: "run/400/two-listeners/idle-late-send", TimeoutMs: 400, Idle: true, LateSend: true, OriginAfterMs: -1, TwoListeners: true})
 	if tier == "thorough" {
 		add(250)
 		add(700)
